@@ -104,6 +104,11 @@ type Exec struct {
 	globals map[uint32]*Tree // OpVariable id -> storage
 	fnStart map[uint32]int
 	steps   int
+	// ByteImages: the words given to / returned from RunEntry are the byte image of each
+	// buffer, mapped onto the variable by the explicit layout decorations of its type
+	// (Offset, ArrayStride, MatrixStride) instead of by declaration order.
+	ByteImages bool
+	varType    map[[2]uint32]uint32 // resource key -> pointee type id
 }
 
 func NewExec(out []byte) (*Exec, bool) {
@@ -769,7 +774,19 @@ func (e *Exec) RunEntry(init map[[2]uint32][]uint32) map[[2]uint32]*Tree {
 			if hasSet && hasBind { // a resource variable
 				key := [2]uint32{set[in.Words[1]], bind[in.Words[1]]}
 				if words, ok := init[key]; ok {
-					Fill(store, words, new(int))
+					if e.ByteImages {
+						if e.varType == nil {
+							e.varType = map[[2]uint32]uint32{}
+						}
+						e.varType[key] = pt.words[2]
+						e.walkImage(store, pt.words[2], 0, 0, func(leaf *Tree, comp int, off uint32) {
+							if off%4 == 0 && int(off/4) < len(words) {
+								leaf.Leaf[comp] = words[off/4]
+							}
+						})
+					} else {
+						Fill(store, words, new(int))
+					}
 					res[key] = store
 				}
 			}
@@ -778,6 +795,87 @@ func (e *Exec) RunEntry(init map[[2]uint32][]uint32) map[[2]uint32]*Tree {
 	}
 	e.call(entry, nil, nil, 0)
 	return res
+}
+
+// walkImage visits every 32-bit component of a buffer value with its byte offset, computed
+// from the layout decorations the Vulkan environment requires on buffer types: Offset on
+// every struct member, ArrayStride on every array type, MatrixStride (+ ColMajor) on every
+// struct member that is a matrix or an array of matrices. A missing decoration is reported.
+func (e *Exec) walkImage(t *Tree, ty uint32, base, matStride uint32, visit func(leaf *Tree, comp int, off uint32)) {
+	st := e.types[ty]
+	switch st.Op {
+	case 20, 21, 22:
+		visit(t, 0, base)
+	case 23:
+		for i := range t.Leaf {
+			visit(t, i, base+4*uint32(i))
+		}
+	case 24:
+		zz.Assert(matStride != 0, "matrix in a buffer without a MatrixStride decoration on the enclosing struct member")
+		for i, k := range t.Kids {
+			e.walkImage(k, st.words[1], base+uint32(i)*matStride, 0, visit)
+		}
+	case 28:
+		stride, ok := e.typeDeco(ty, decoArrayStride)
+		zz.Assert(ok, "array type in a buffer without an ArrayStride decoration")
+		for i, k := range t.Kids {
+			e.walkImage(k, st.words[1], base+uint32(i)*stride, matStride, visit)
+		}
+	case 30:
+		for i, k := range t.Kids {
+			off, ok := e.memberDeco(ty, uint32(i), decoOffset)
+			zz.Assert(ok, "struct member in a buffer without an Offset decoration")
+			ms, _ := e.memberDeco(ty, uint32(i), decoMatrixStride)
+			_, rowMajor := e.memberDeco(ty, uint32(i), decoRowMajor)
+			zz.Assert(!rowMajor, "RowMajor matrix member: the WGSL layout is column major")
+			e.walkImage(k, st.words[1+i], base+off, ms, visit)
+		}
+	default:
+		zz.Fail("reference SPIR-V executor: byte image of an unmodelled type")
+	}
+}
+
+const (
+	decoRowMajor     = 4
+	decoArrayStride  = 6
+	decoMatrixStride = 7
+	decoOffset       = 35
+)
+
+func (e *Exec) typeDeco(ty, deco uint32) (uint32, bool) {
+	for _, in := range e.insts {
+		if in.Op == opDecorate && len(in.Words) >= 2 && in.Words[0] == ty && in.Words[1] == deco {
+			if len(in.Words) > 2 {
+				return in.Words[2], true
+			}
+			return 0, true
+		}
+	}
+	return 0, false
+}
+
+func (e *Exec) memberDeco(ty, member, deco uint32) (uint32, bool) {
+	for _, in := range e.insts {
+		if in.Op == 72 && len(in.Words) >= 3 && in.Words[0] == ty && in.Words[1] == member && in.Words[2] == deco {
+			if len(in.Words) > 3 {
+				return in.Words[3], true
+			}
+			return 0, true
+		}
+	}
+	return 0, false
+}
+
+// Image returns the byte image (as n words, starting from `from`) of a buffer after RunEntry
+// with ByteImages set.
+func (e *Exec) Image(key [2]uint32, store *Tree, from []uint32) []uint32 {
+	out := append([]uint32(nil), from...)
+	e.walkImage(store, e.varType[key], 0, 0, func(leaf *Tree, comp int, off uint32) {
+		if off%4 == 0 && int(off/4) < len(out) {
+			out[off/4] = leaf.Leaf[comp]
+		}
+	})
+	return out
 }
 
 // Fill writes words into the leaves of a tree in order.
